@@ -20,7 +20,7 @@ RULE = ('corpus; approval profiles over 2..6 candidates (1..7 distinct ballots, 
         'and satisfies justified representation; SPAV round = unique argmax. non-trivial = more than two ballots; distinct by case hash')
 PARTIAL = ['allocated score (repaired, wave 6): the clause is proved for every round without a tie and positive ballot weights, the loop has no error outcome (C12_alloc_answers) and the selector returns a well-shaped selection (C08_shape_allocated_score); rounds with level leaders follow the code - all seated in set-iteration order without re-running the maximum (C12_alloc_tie_second_refuted, C10_allocated_score_tie_order_refuted: known findings left to the maintainers)',
            'STAR: proved for the default configuration (run-off of n + 1, unscored below every scored candidate): table = supports, exact short class, complete one-seat table, Schulze over the table for n seats (C12_star_*); a configured unscored_value / other run-off sizes are judged by the Python reference only',
-           'MJ for n seats: the theorems (C12_mj_seats_*, repaired: C12_mj_exhausted_*) are about answers; that a separated top-n set always gets an answer (completeness; VotingSystemError only for a lasting tie) and the sufficiency of the fuel are compared, not proved',
+           'MJ for n seats: the theorems (C12_mj_seats_*, repaired: C12_mj_exhausted_*) are about answers; that a separated top-n set always gets an answer (completeness; VotingSystemError only for a lasting tie) is compared, not proved; the fuel of the repaired loop is proved sufficient (C12_mj_fuel_sufficient)',
            'score voting: a non-integer truncation >= 1 is floored by the model (outside the quantified settings)']
 TRUSTED = []
 _shared = {}
